@@ -156,7 +156,11 @@ fn main() {
                         continue;
                     }
                 }
-                (d.run)(&ctx);
+                // a panic outside a case (while building generators / cached honest values) is a
+                // harness-level failure: INCONCLUSIVE, never a crash of the check
+                if let Err(desc) = engine::no_panic(|| (d.run)(&ctx)) {
+                    ctx.inconclusive(format!("{}: panic outside a case: {}", d.name, desc));
+                }
             }
             let code = ctx.finish();
             std::process::exit(if regress_fail { 1 } else { code });
